@@ -79,6 +79,18 @@ func (ex *Exec) fail(st *State, label string, cond *Term) {
 
 // assert checks that cond holds on every model of the path condition.
 func (ex *Exec) assert(st *State, cond *Term, label string, detail string) {
+	// labels of the form Cnn/... belong to one property; a run for another property skips them
+	if len(ex.LabelPrefixes) > 0 && len(label) > 3 && label[0] == 'C' && label[3] == '/' {
+		ok := false
+		for _, p := range ex.LabelPrefixes {
+			if strings.HasPrefix(label, p) {
+				ok = true
+			}
+		}
+		if !ok {
+			return
+		}
+	}
 	res := ex.Results
 	ls := res.label(label)
 	ls.Reached++
@@ -421,10 +433,7 @@ func (ex *Exec) harnessIntrinsic(f *ssa.Function) intrinsic {
 	case "vIsPanicking":
 		return func(ex *Exec, st *State, args []Value, site ssa.CallInstruction) Value { return c.False }
 	}
-	return func(ex *Exec, st *State, args []Value, site ssa.CallInstruction) Value {
-		unsupported("unknown harness function %s", name)
-		return nil
-	}
+	return nil // ordinary harness helper: interpreted
 }
 
 // typeOfValue is used in diagnostics.
